@@ -386,7 +386,7 @@ fn el(p: &P, b: &mut B, depth: usize, rest: &[P], used: &mut usize) -> XEl {
                 }
                 _ if p.f & 0x80 != 0 => {
                     // the target's size is given in units: nothing is known about it in user units
-                    u.set("href", "#unitbox");
+                    u.set("href", ["#unitbox", "#unitcirc", "#unitell", "#unitline"][(p.f >> 9) as usize % 4]);
                     b.f("use.unit-sized-target");
                 }
                 _ if p.f & 0x40 != 0 => {
@@ -536,6 +536,9 @@ fn defs_block() -> XEl {
         .kid(XEl::new("rect").a("id", "shape1").a("width", "8").a("height", "4"))
         .kid(XEl::new("rect").a("id", "shape.v2-a").a("width", "3").a("height", "3"))
         .kid(XEl::new("rect").a("id", "unitbox").a("width", "2cm").a("height", "1cm"))
+        .kid(XEl::new("circle").a("id", "unitcirc").a("r", "2em"))
+        .kid(XEl::new("ellipse").a("id", "unitell").a("rx", "1cm").a("ry", "10%"))
+        .kid(XEl::new("line").a("id", "unitline").a("x1", "0").a("y1", "0").a("x2", "50%").a("y2", "1cm"))
         .kid(XEl::new("circle").a("id", "circ1").a("cx", "5").a("cy", "5").a("r", "5"))
         .kid(XEl::new("path").a("id", "pathdef").a("d", "M0 0 C 10 10 20 10 30 0"))
         .kid(XEl::new("pattern").a("id", "pat1").a("width", "4").a("height", "4").a("patternUnits", "userSpaceOnUse").kid(XEl::new("circle").a("cx", "2").a("cy", "2").a("r", "1")))
@@ -619,7 +622,7 @@ fn same(a: &Element, b: &Element, is_root: bool, path: &str) -> Result<(), (Stri
         "use" => match (a.attr("href"), a.attr("xlink:href")) {
             (Some("#circ1"), _) => Some("use.circle-target"),
             (Some("#shape.v2-a"), _) => Some("use.dotted-id"),
-            (Some("#unitbox"), _) => Some("use.unit-sized-target"),
+            (Some("#unitbox" | "#unitcirc" | "#unitell" | "#unitline"), _) => Some("use.unit-sized-target"),
             (Some("#sym1"), _) => Some("use.symbol"),
             (Some(h), _) if !h.starts_with('#') => Some("use.external-href"),
             (None, Some(_)) => Some("use.xlink-href"),
